@@ -21,9 +21,9 @@ def install():
     C.shadow_module(UN)
 
 
-def h_unov(x, n1, n2, twin=False):
-    A, TA, DA = mklist(x, "a", n1, True, ordered=True)
-    B, TB, DB = mklist(x, "b", n2, True, ordered=True)
+def h_unov(x, n1, n2, twin=False, us=False):
+    A, TA, DA = mklist(x, "a", n1, True, ordered=True, us=us)
+    B, TB, DB = mklist(x, "b", n2, True, ordered=True, us=us)
     origA, origB = list(A), list(B)
     out = UN.union_no_overlap(A, B)
     if twin:
@@ -43,6 +43,14 @@ def h_unov(x, n1, n2, twin=False):
         cnt = Sum([If(And(So[k] <= t, t < Eo[k]), 1, 0) for k in mine])
         want = If(And(TB[j] <= t, t < TB[j] + DB[j], Not(in_a)), 1, 0)
         obl.append(("list-two-uncovered-part-exactly-once-b%d" % j, cnt == want))
+        # a zero-length event of list two: kept (once, as it is) unless it lies strictly inside an event of list
+        # one.  Exactly on an edge of a list-one event it counts as not covered — the statement does not fix
+        # this; it is the reading under which the implementation is exact, and it is stated in the evidence
+        zl = Sum([If(And(So[k] == TB[j], Eo[k] == TB[j]), 1, 0) for k in mine])
+        in_gap = And([Or(TB[j] <= TA[i], TB[j] >= TA[i] + DA[i]) for i in range(n1)])  # edges included: open-interval reading of 'covered'
+        strictly_inside = Or([And(TA[i] < TB[j], TB[j] < TA[i] + DA[i]) for i in range(n1)])
+        obl.append(("zero-length-list-two-event-in-a-gap-kept-b%d" % j, Implies(And(DB[j] == 0, in_gap), zl == 1)))
+        obl.append(("zero-length-list-two-event-inside-list-one-dropped-b%d" % j, Implies(And(DB[j] == 0, strictly_inside), len(mine) == 0)))
         for k in mine:
             obl.append(("piece-inside-source-b%d" % j, And(TB[j] <= So[k], So[k] <= Eo[k], Eo[k] <= TB[j] + DB[j])))
             obl.append(("piece-keeps-data-b%d" % j, out[k].data == DATA("b", j)))
@@ -54,6 +62,17 @@ def h_unov(x, n1, n2, twin=False):
     obl.append(("covered-time-is-the-union", S.Iff(inn, outc)))
     obl.append(("list-one-unmodified", unmodified(A, TA, DA, "a", origA)))
     obl.append(("list-two-unmodified", unmodified(B, TB, DB, "b", origB)))
+    if us:
+        # with sub-millisecond ends in list one the exact form of 'no two outputs overlap' (and with it the
+        # exactly-once count inside the shared sliver) is a known finding: a piece of a list-two event that
+        # begins where a list-one event ends can only start on a whole millisecond; what must still hold:
+        sliver = Or([And(TA[i] + DA[i] - 1000 < t, t < TA[i] + DA[i]) for i in range(n1)])
+        for j in range(n2):
+            mine = [k for k, o in enumerate(out) if o.data.get("uid") == "b%d" % j]
+            cnt = Sum([If(And(So[k] <= t, t < Eo[k]), 1, 0) for k in mine])
+            want = If(And(TB[j] <= t, t < TB[j] + DB[j], Not(in_a)), 1, 0)
+            obl.append(("list-two-uncovered-part-exactly-once-outside-the-last-ms-of-list-one-events-b%d" % j, Implies(Not(sliver), cnt == want)))
+        obl.append(("outputs-overlap-by-less-than-1ms", And([Or(Eo[a] - So[b] < 1000, Eo[b] - So[a] < 1000, Eo[a] <= So[a], Eo[b] <= So[b]) for a in range(len(out)) for b in range(a + 1, len(out))])))
     obs = [len(out)] + [[o.data.get("uid"), So[k], Eo[k]] for k, o in enumerate(out)]
     return obl, obs
 
@@ -62,9 +81,11 @@ def harnesses(tier):
     install()
     hs = []
     if tier == "quick":
-        spec = [(1, 1, 60), (2, 1, 60), (1, 2, 60), (2, 2, 300)]
+        spec = [(1, 1, 60), (2, 1, 60), (1, 2, 60), (2, 2, 300), (4, 1, 300), (5, 1, 600)]
     else:
-        spec = [(1, 1, 60), (2, 1, 60), (1, 2, 60), (2, 2, 300), (3, 2, 900), (2, 3, 900), (3, 3, 3600), (4, 3, 3600), (3, 4, 3600), (4, 4, 7200)]
+        spec = [(1, 1, 60), (2, 1, 60), (1, 2, 60), (2, 2, 300), (4, 1, 300), (5, 1, 600), (6, 1, 1800), (3, 2, 900), (2, 3, 900), (3, 3, 3600), (4, 3, 3600), (3, 4, 3600), (4, 4, 7200)]
+    for n1, n2 in ([(1, 1), (2, 1), (1, 2)] if tier == "quick" else [(1, 1), (2, 1), (1, 2), (2, 2), (3, 1)]):
+        hs.append((Harness(PROP, "union_no_overlap-%d+%d-microsecond-durations" % (n1, n2), h_unov, dict(n1=n1, n2=n2, us=True), "union_no_overlap on lists of %d and %d events whose durations are any whole number of microseconds" % (n1, n2), split_depth=7), 1800))
     hs.append((Harness(PROP, "union_no_overlap-1+1-float-semantics", C.with_floats(h_unov), dict(n1=1, n2=1), "union_no_overlap 1+1 with IEEE double semantics for any float arithmetic, durations < 2^17 ms in binary range pieces", split_depth=7, fresh_solver=True), 600))
     for n1, n2, budget in spec:
         hs.append((Harness(PROP, "union_no_overlap-%d+%d" % (n1, n2), h_unov, dict(n1=n1, n2=n2), "union_no_overlap on sorted non-overlapping lists of %d and %d events" % (n1, n2), split_depth=7, cross_solver=2), budget))
@@ -75,12 +96,12 @@ def meta(chk, tier):
     chk.functions = C.source_files("aw_transform/union_no_overlap.py", "aw_core/models.py", "/venv/lib/python3.12/site-packages/timeslot/timeslot.py")
     chk.functions.append(dict(functions=["union_no_overlap", "_split_event", "timeslot.Timeslot.intersects/overlaps/contains", "aw_core.models.Event"]))
     chk.bounds = [
-        "list sizes up to 2+2 (quick), 4+4 (thorough); both lists sorted by timestamp and internally non-overlapping (touching allowed)",
+        "list sizes up to 2+2, 4+1 and 5+1 (quick), 4+4 and 6+1 (thorough); both lists sorted by timestamp and internally non-overlapping (touching allowed)",
         "timestamps any multiple of 1 ms in [1970, ~2103]; durations any multiple of 1 ms in [0, 1e10 ms], zero-length included",
         "query point t: unconstrained integer microsecond; intervals half-open for the exactly-once count",
     ]
     chk.stubs = ["aw_core.models.int -> sym_int", "logging disabled"]
-    chk.assumptions = ["millisecond granularity", "two outputs 'overlap' only if they share a positive amount of time (zero-length outputs never overlap anything)"]
+    chk.assumptions = ["the main harnesses use whole-millisecond durations; microsecond durations are covered by the *-microsecond-durations harnesses, where the exact no-overlap / exactly-once obligations are known findings (overlap of less than 1 ms where a list-one event ends between two milliseconds) and the 1 ms-tolerant form must hold", "a zero-length list-two event exactly on an edge of a list-one event counts as not covered (kept): the statement leaves this open; it is the reading under which the current implementation is exact", "two outputs 'overlap' only if they share a positive amount of time (zero-length outputs never overlap anything)"]
 
 
 def post(chk, tier):
